@@ -153,6 +153,13 @@ def sameNode (env : Env) (a b : Node) : Bool :=
   a.led.utxos.byId.toList == b.led.utxos.byId.toList && a.led.utxos.byAddr.toList == b.led.utxos.byAddr.toList &&
   a.led.reg.registered.toList == b.led.reg.registered.toList && a.led.reg.pending == b.led.reg.pending
 
+/-- the node exactly as observed (used to re-synchronise the model after a correspondence DIFF, so that the rest of
+    the scenario can still be searched for a PROP failure) -/
+def nodeOfObs (ds : DS) (o : ObsSt) : Option Node := do
+  let bs ← o.chain.mapM (fun h => ds.blocks.get? h)
+  let pool ← o.pool.mapM (fun id => ds.txs.get? id)
+  pure ⟨⟨bs, ⟨TreeMap.ofList o.byId, TreeMap.ofList o.byAddr⟩, ⟨TreeSet.ofList o.reg, o.pending⟩⟩, pool⟩
+
 -- ---------------------------------------------------------------- monitors on the implementation's state
 
 def obsBlocks (ds : DS) (o : ObsSt) : E (List Block) :=
@@ -408,7 +415,8 @@ def step (ds : DS) (j : Json) : E (DS × Out) := do
   let notes := ds.notes.map (fun s => "C15 " ++ s) ++
     (if ds.monitorsOn then (info.filter (fun kv => kv.1 == "prop")).map (·.2) else [])
   let info := info.filter (fun kv => kv.1 != "prop")
-  let ds := { ds with nodes := ds.nodes.insert name chosen, notes := [] }
+  let next := if diffs.isEmpty then chosen else (nodeOfObs ds o).getD chosen
+  let ds := { ds with nodes := ds.nodes.insert name next, notes := [] }
   pure (ds, { diffs := diffs, props := propsAll ++ notes, miss := miss || props != propsHi, info := info })
 
 def outJson (n : Nat) (o : Out) : String :=
